@@ -17,7 +17,7 @@ putdemo() { mkdir -p $w/$ddir; for f in $src/*.go; do cp $f $w/$ddir/; done; }
 rmdemo() { for f in $src/*.go; do rm -f $w/$ddir/$(basename $f); done; }
 putdemo
 cd $w
-base=$(go test -vet=off -count=1 -run "$re" $pkg 2>&1 | tail -3)
+base=$(go test $SEED_TESTFLAGS -vet=off -count=1 -run "$re" $pkg 2>&1 | tail -3)
 echo "$base" | grep -q "^ok" && bres=pass || bres=FAIL
 if ! git apply $src/patch.diff 2>/tmp/apply.err; then echo "PATCH DOES NOT APPLY: $(cat /tmp/apply.err | head -2)"; exit 3; fi
 go build ./... 2>&1 | tail -2
@@ -25,7 +25,7 @@ rmdemo
 suite=$(go test -vet=off -count=1 ./... 2>&1 | grep -v "^ok\|no test files" | head -5)
 [ -z "$suite" ] && sres=pass || sres="FAIL: $suite"
 putdemo
-with=$(go test -vet=off -count=1 -run "$re" $pkg 2>&1 | tail -4)
+with=$(go test $SEED_TESTFLAGS -vet=off -count=1 -run "$re" $pkg 2>&1 | tail -4)
 echo "$with" | grep -q "^ok" && wres=pass || wres=FAIL
 rmdemo
 echo "demo without patch: $bres | suite with patch: $sres | demo with patch: $wres"
